@@ -1,84 +1,267 @@
-"""C06 — a suspend point never loses or duplicates a ready coroutine (suspend_point.h)."""
+"""C06 — a suspend point never loses or duplicates a ready coroutine (suspend_point.h, coro_queue.h create_suspend_point)."""
 import random
 from vlib import Case
 
-RULE = ("random + boundary-aimed op sequences over suspend_point<int> objects (New/NewH/Add/Merge/MoveCtor/MoveBase/"
-        "MoveAssign/Pop/Clear/Destroy/Await/Flush) in normal mode (sp0) and coroutine mode (sp1), every case closed by "
-        "destroying all objects and flushing the ready queue; a case is non-trivial when at least one object crosses the "
-        "inline->heap boundary (allocation observed in the model) or a merge/move of a non-empty object occurs; distinct = distinct op list")
-SCOPE = "suspend_point<void>/<int> add/pop/merge/move/clear/await/destructor and the ready-queue interaction of suspend_now/await_suspend"
-ASSUMPTIONS = ["handles handed to one case are pairwise distinct (the generator uses fresh ids); the awaiting coroutine's own handle is never inside the awaited object",
-               "coroutine-mode cases keep < 60 enqueues so that libstdc++ deque node allocation (C20 finding) stays outside C06's allocation accounting"]
+RULE = ("random + boundary-aimed op sequences over suspend_point<void> and suspend_point<MV> objects (MV: class type with "
+        "observable moves): New/NewH/NewVoid/NewVoidH/create_suspend_point/Add/Merge/MoveCtor/MoveBase/MoveAssign/Swap/Pop/"
+        "Clear/Destroy/Read(conversion, const conversion)/Await(temporary)/AwaitL(lvalue)/AddSelf(own handle)/Flush in normal "
+        "mode (sp0) and coroutine mode (sp1), every case closed by awaiting the object that holds the own handle, destroying "
+        "all objects and flushing the ready queue; a case is non-trivial when at least one object crosses the inline->heap "
+        "boundary (allocation observed in the model) or a merge/move/swap/create/await of a non-empty object occurs; "
+        "distinct = distinct op list; thorough adds all programs of length <= 4 over a 10-letter (coroutine mode, own handle, both await "
+        "forms) and a 9-letter (normal mode, growth, merges, swap) alphabet on two objects")
+SCOPE = ("suspend_point<void>/<X> add/pop/merge/move/swap/clear/await/destructor, value conversions and await_resume, "
+         "coro_queue::create_suspend_point, and the ready-queue interaction of suspend_now/await_suspend/pause")
+ASSUMPTIONS = ["the awaiting coroutine's own handle (co_await self()) is in at most one place and is consumed only by co_await "
+               "(pop/clear/destroy of the object holding it would resume a running coroutine: rejected as invalid input)",
+               "coroutine-mode cases keep < 60 enqueues so that libstdc++ deque node allocation (C20 finding) stays outside C06's allocation accounting",
+               "own-handle-LAST awaits: the model transcribes the library with fixes/C06-await-own-handle-last.patch (/repo 857b709); the unrepaired "
+               "code resumes the awaiter twice (use-after-free) on exactly these inputs (signature suffix :self-last)"]
+
+NSLOT = 6
+
+
+class Sim:
+    """list-level mirror of the model's acceptance rules (used to generate valid ops, to close cases, for signatures)"""
+    def __init__(self, coro):
+        self.coro = coro
+        self.s = {}          # slot -> [typed, hs]
+        self.q = []
+        self.enq = 0         # push_back calls so far
+        self.self_last = False
+
+    def holder(self):
+        for o, (t, hs) in self.s.items():
+            if 0 in hs:
+                return o
+        return None
+
+    def apply(self, op):
+        """returns True when the op is accepted; updates the state like the model"""
+        s = self.s
+        if not op:
+            return False
+        c = op[0]
+        def live(o): return o in s
+        if c in (0, 1, 13, 14):
+            want = {0: 3, 1: 4, 13: 2, 14: 3}[c]
+            if len(op) != want or live(op[1]): return False
+            if c in (1, 14) and op[2] <= 0: return False
+            s[op[1]] = [c in (0, 1), [op[2]] if c in (1, 14) else []]
+            return True
+        if c == 12:
+            if len(op) < 4 or live(op[1]) or op[2] not in (0, 1) or any(h <= 0 for h in op[4:]): return False
+            s[op[1]] = [op[2] == 1, list(reversed(op[4:]))]
+            return True
+        if c == 2:
+            if len(op) != 3 or not live(op[1]) or op[2] <= 0: return False
+            s[op[1]][1].append(op[2]); return True
+        if c == 17:
+            if len(op) != 2 or not self.coro or not live(op[1]) or self.holder() is not None or 0 in self.q: return False
+            s[op[1]][1].append(0); return True
+        if c in (3, 11):
+            if len(op) != 3 or op[1] == op[2] or not live(op[1]) or not live(op[2]): return False
+            if c == 11 and s[op[1]][0] and not s[op[2]][0]: return False
+            s[op[1]][1] += s[op[2]][1]; s[op[2]][1] = []; return True
+        if c in (4, 5):
+            if len(op) != (3 if c == 4 else 4) or op[1] == op[2] or live(op[1]) or not live(op[2]): return False
+            s[op[1]] = [True if c == 5 else s[op[2]][0], s[op[2]][1]]; s[op[2]][1] = []; return True
+        if c == 18:
+            if len(op) != 3 or op[1] == op[2] or not live(op[1]) or not live(op[2]) or s[op[1]][0] != s[op[2]][0]: return False
+            s[op[1]][1], s[op[2]][1] = s[op[2]][1], s[op[1]][1]; return True
+        if c == 15:
+            return len(op) == 3 and live(op[1]) and s[op[1]][0] and op[2] in (0, 1)
+        if c in (6, 7, 8):
+            if len(op) != 2 or not live(op[1]) or 0 in s[op[1]][1]: return False
+            hs = s[op[1]][1]
+            if c == 6:
+                if hs: hs.pop()
+            else:
+                if self.coro:
+                    self.q += hs; self.enq += len(hs)
+                s[op[1]][1] = []
+                if c == 8: del s[op[1]]
+            return True
+        if c in (9, 16):
+            if len(op) != 2 or not self.coro or not live(op[1]): return False
+            hs = s[op[1]][1]
+            s[op[1]][1] = []
+            if not hs: return True
+            out, rest = hs[-1], hs[:-1]
+            if out == 0: self.self_last = True
+            me_in = out == 0 or 0 in rest
+            q1 = self.q + rest + ([] if me_in else [0])
+            self.enq += len(rest) + (0 if me_in else 1)
+            if out == 0: self.q = q1
+            else: self.q = q1[q1.index(0) + 1:] if 0 in q1 else []
+            return True
+        if c == 10:
+            if len(op) != 1 or not self.coro: return False
+            q1 = self.q + [0]
+            self.enq += 1
+            self.q = q1[q1.index(0) + 1:]
+            return True
+        return False
 
 
 def close_case(c):
-    """append destroy-all + flush so that the oracle's closed-trace precondition holds"""
-    ops = [o for o in c.ops]
-    slots = set()
-    for o in ops:
-        if o and o[0] in (0, 1, 4, 5):
-            slots.add(o[1])
-    tail = [[8, s] for s in sorted(slots)]
+    """append what makes the oracle's closed-trace precondition hold: await the object that holds the own handle,
+    destroy every object, flush the ready queue"""
+    sim = Sim(c.engine == "sp1")
+    for o in c.ops:
+        sim.apply(o)
+    tail = []
+    h = sim.holder()
+    if h is not None:
+        tail.append([16, h])
+        sim.apply([16, h])
+    for s in sorted(sim.s):
+        tail.append([8, s])
     if c.engine == "sp1":
         tail.append([10])
-    return Case(c.engine, c.name, ops + tail, c.meta)
+    return Case(c.engine, c.name, c.ops + tail, c.meta)
 
 
-def gen_one(rng, engine, name, nops, aim):
+def gen_one(rng, engine, name, nops, aim, allow_self_last=False):
     coro = engine == "sp1"
-    live = {}      # slot -> count
+    sim = Sim(coro)
     nxt = [1]
     ops = []
-    enq = 0
     def fresh():
         nxt[0] += 1
         return nxt[0]
     def budget(k):
-        return (not coro) or enq + k <= 55
+        return (not coro) or sim.enq + k <= 55
+    def do(op):
+        ops.append(op)
+        return sim.apply(op)
+    def count(o):
+        return len(sim.s[o][1])
     for _ in range(nops):
         r = rng.random()
-        dead = [s for s in range(5) if s not in live]
+        live = list(sim.s)
+        dead = [s for s in range(NSLOT) if s not in sim.s]
         if (not live or r < 0.08) and dead:
             s = rng.choice(dead)
-            if rng.random() < 0.5:
-                ops.append([0, s, 1000 + s]); live[s] = 0
+            k = rng.random()
+            if k < 0.25: do([0, s, 1000 + s])
+            elif k < 0.45: do([1, s, fresh(), 1000 + s])
+            elif k < 0.55: do([13, s])
+            elif k < 0.65: do([14, s, fresh()])
             else:
-                ops.append([1, s, fresh(), 1000 + s]); live[s] = 1
+                m = rng.choice([0, 1, 2] + aim)
+                if nxt[0] + m > 70 or not budget(m): m = 1
+                do([12, s, rng.randint(0, 1), 3000 + s] + [fresh() for _ in range(m)])
             continue
         if not live:
             continue
-        s = rng.choice(list(live))
-        if r < 0.45:
+        s = rng.choice(live)
+        hold = sim.holder()
+        if r < 0.36:
             k = rng.choice(aim)
             if nxt[0] + k > 70: k = 1
             for _ in range(k):
-                ops.append([2, s, fresh()]); live[s] += 1
-        elif r < 0.58 and len(live) >= 2:
+                do([2, s, fresh()])
+        elif r < 0.48 and len(live) >= 2:
             t = rng.choice([x for x in live if x != s])
-            ops.append([rng.choice([3, 11]), s, t]); live[s] += live[t]; live[t] = 0
-        elif r < 0.66 and dead:
+            do([rng.choice([3, 11]), s, t])
+        elif r < 0.54 and len(live) >= 2:
+            t = rng.choice([x for x in live if x != s])
+            do([18, s, t])
+        elif r < 0.61 and dead:
             d = rng.choice(dead)
-            if rng.random() < 0.5: ops.append([4, d, s])
-            else: ops.append([5, d, s, 2000 + d])
-            live[d] = live[s]; live[s] = 0
-        elif r < 0.78:
-            k = rng.choice([1, 1, 2, live[s] + 1])
+            if rng.random() < 0.5: do([4, d, s])
+            else: do([5, d, s, 2000 + d])
+        elif r < 0.72:
+            k = rng.choice([1, 1, 2, count(s) + 1, max(1, count(s) - 2)])
             for _ in range(k):
-                ops.append([6, s]); live[s] = max(0, live[s] - 1)
-        elif r < 0.84 and budget(live[s]):
-            ops.append([7, s]); enq += live[s]; live[s] = 0
-        elif r < 0.90 and budget(live[s]):
-            ops.append([8, s]); enq += live[s]; del live[s]
-        elif r < 0.95 and coro and budget(live[s] + 1):
-            ops.append([9, s]); enq += live[s] + 1; live[s] = 0
-        elif coro:
-            ops.append([10])
+                do([6, s])
+            if rng.random() < 0.5 and s != hold:        # add after pop (a popped heap-backed point keeps its array)
+                for _ in range(rng.choice([1, 2, 3])):
+                    do([2, s, fresh()])
+        elif r < 0.79:
+            for _ in range(rng.choice([1, 2, 3])):
+                do([15, s, rng.randint(0, 1)])
+        elif r < 0.83 and budget(count(s)):
+            do([7, s])
+        elif r < 0.87 and budget(count(s)):
+            do([8, s])
+        elif coro and r < 0.93 and budget(count(s) + 1):
+            if s == hold and sim.s[s][1][-1] == 0 and not allow_self_last:
+                do([2, s, fresh()])                      # keep the own handle away from the last position
+            do([rng.choice([9, 16]), s])
+        elif coro and r < 0.97 and hold is None:
+            do([17, s])
+        elif coro and budget(1):
+            do([10])
         else:
-            ops.append([6, s]); live[s] = max(0, live[s] - 1)
+            do([15, s, 0])
     # a few invalid ops (malformed stream) to exercise the rejection path identically on both sides
     if rng.random() < 0.15:
-        ops.insert(rng.randrange(len(ops) + 1), [2, 9, 999])
-    return close_case(Case(engine, name, ops))
+        ops.insert(rng.randrange(len(ops) + 1), rng.choice([[2, 9, 999], [2, 0, 0], [15, 0, 7], [12, 1, 2, 5, 9], [99], [6], [18, 0, 0]]))
+    c = Case(engine, name, ops)
+    if not allow_self_last:
+        # the closing await must not meet the own handle in the last position either
+        sim2 = Sim(coro)
+        for o in ops: sim2.apply(o)
+        h = sim2.holder()
+        if h is not None and sim2.s[h][1][-1] == 0:
+            c = Case(engine, name, ops + [[2, h, 900]])
+    return close_case(c)
+
+
+def self_cases(eng, tag, sizes, last):
+    """own handle at every position k of an n-handle list (k = n-1: the last one only when `last`), awaited
+    as a temporary / as an lvalue, void / typed, list built directly or by merging"""
+    out = []
+    b = 0
+    for n_ in sizes:
+        for k in range(n_):
+            if (k == n_ - 1) != last:
+                continue
+            for form in (9, 16):
+                for typed in (0, 1):
+                    ops = [[0, 0, 1000]] if typed else [[13, 0]]
+                    hs = [10 + i for i in range(n_ - 1)]
+                    for i, h in enumerate(hs[:k]): ops.append([2, 0, h])
+                    ops.append([17, 0])
+                    if (n_ + k) % 2 == 0:
+                        for h in hs[k:]: ops.append([2, 0, h])
+                    else:   # tail arrives by merge of another object
+                        ops.append([13, 1])
+                        for h in hs[k:]: ops.append([2, 1, h])
+                        ops.append([3, 0, 1])
+                    ops += [[0, 3, 1003], [2, 3, 500], [7, 3]]          # something already in the ready queue
+                    ops += [[form, 0], [15, 0, 0]] if typed else [[form, 0]]
+                    ops += [[10]]
+                    out.append(close_case(Case(eng, "%s%d" % (tag, b), ops))); b += 1
+    return out
+
+
+def exhaustive():
+    """all programs of length <= 4 over a small alphabet on two objects (every Add uses a fresh handle)"""
+    import itertools
+    out = []
+    def build(eng, tag, prefix, letters, maxlen):
+        k = 0
+        for ln in range(1, maxlen + 1):
+            for word in itertools.product(range(len(letters)), repeat=ln):
+                ops = [list(o) for o in prefix]
+                h = 10
+                for w in word:
+                    for o in letters[w]:
+                        o = list(o)
+                        if o[0] == 2:
+                            h += 1; o[2] = h
+                        ops.append(o)
+                out.append(close_case(Case(eng, "%s%d" % (tag, k), ops))); k += 1
+    # coroutine mode: void object 0, typed object 1; own handle, merges both ways, both await forms, pause, pop
+    build("sp1", "xc", [[13, 0], [0, 1, 1001]],
+          [[[2, 0, 0]], [[2, 1, 0]], [[17, 0]], [[17, 1]], [[3, 0, 1]], [[3, 1, 0]], [[16, 0]], [[9, 1]], [[10]], [[6, 0]]], 4)
+    # normal mode: two void objects; growth to the heap, merges, merging move assignment, swap, pop, clear
+    build("sp0", "xn", [[13, 0], [13, 1]],
+          [[[2, 0, 0]], [[2, 0, 0]] * 4, [[2, 1, 0]], [[3, 0, 1]], [[3, 1, 0]], [[6, 0]], [[18, 0, 1]], [[7, 1]], [[11, 0, 1]]], 4)
+    return out
 
 
 def gen(seed, tier):
@@ -89,16 +272,37 @@ def gen(seed, tier):
     b = 0
     for eng in ("sp0", "sp1"):
         for k in (3, 4, 6, 7, 12, 13, 24, 25, 40):
-            ops = [[0, 0, 1000]] + [[2, 0, 10 + i] for i in range(k)]
-            cases.append(close_case(Case(eng, "b%d" % b, ops))); b += 1
-            ops2 = ops + [[6, 0]] * (k + 1) + [[2, 0, 100 + i] for i in range(4)]
-            cases.append(close_case(Case(eng, "b%d" % b, ops2))); b += 1
-            ops3 = ops + [[0, 1, 1001]] + [[2, 1, 200 + i] for i in range(k)] + [[3, 0, 1], [4, 2, 0], [11, 1, 2]]
-            cases.append(close_case(Case(eng, "b%d" % b, ops3))); b += 1
+            for new in ([0, 0, 1000], [13, 0]):
+                ops = [new] + [[2, 0, 10 + i] for i in range(k)]
+                cases.append(close_case(Case(eng, "b%d" % b, ops))); b += 1
+                ops2 = ops + [[6, 0]] * (k + 1) + [[2, 0, 100 + i] for i in range(4)]
+                cases.append(close_case(Case(eng, "b%d" % b, ops2))); b += 1
+                ops3 = ops + [[0, 1, 1001]] + [[2, 1, 200 + i] for i in range(k)] + [[3, 0, 1], [4, 2, 0], [11, 1, 2]]
+                cases.append(close_case(Case(eng, "b%d" % b, ops3))); b += 1
+            # pop down to j remaining, then add again (heap flag stays set)
+            for j in (0, 1, 2):
+                if k > 3:
+                    ops4 = [[13, 0]] + [[2, 0, 10 + i] for i in range(k)] + [[6, 0]] * (k - j) + [[2, 0, 300 + i] for i in range(5)]
+                    cases.append(close_case(Case(eng, "b%d" % b, ops4))); b += 1
+            # create_suspend_point with k handles, typed and void; value read repeatedly; swap with a small one
+            ops5 = [[12, 0, 1, 3000] + [10 + i for i in range(k)], [15, 0, 0], [15, 0, 0], [15, 0, 1], [12, 1, 0, 0, 400, 401],
+                    [0, 2, 1002], [2, 2, 402], [18, 0, 2], [15, 0, 0], [15, 2, 0], [15, 2, 1], [4, 3, 2], [15, 2, 0], [15, 3, 0], [11, 0, 3], [15, 3, 1], [15, 0, 0]]
+            cases.append(close_case(Case(eng, "b%d" % b, ops5))); b += 1
+    # value reads around every kind of move, awaited values
+    ops6 = [[1, 0, 5, 1000], [15, 0, 0], [15, 0, 0], [16, 0], [15, 0, 0], [2, 0, 6], [9, 0], [15, 0, 0], [15, 0, 1]]
+    cases.append(close_case(Case("sp1", "b%d" % b, ops6))); b += 1
+    # the own handle inside the awaited list, at every position but the last
+    cases += self_cases("sp1", "s", (2, 3, 4, 5, 7, 8), False)
     for i in range(n):
         eng = "sp0" if i % 2 == 0 else "sp1"
         aim = rng.choice([[1, 2, 3], [3, 4], [4, 6, 7], [7, 12, 13], [1, 1, 25]])
         cases.append(gen_one(rng, eng, "g%d" % i, rng.randint(3, 25), aim))
+    if tier != "quick":
+        cases += exhaustive()
+    # own handle LAST (needs fixes/C06-await-own-handle-last.patch): few, and at the end of the batch, because on the
+    # unrepaired library each of them ends in a use-after-free
+    sl = self_cases("sp1", "sl", (1, 2, 4, 5), True)
+    cases += sl[:4] if tier == "quick" else sl
     return cases
 
 
@@ -108,15 +312,18 @@ def nontrivial(case, model_obs):
         a = l.split()
         if len(a) > 3 and a[0] == "0":
             allocs += int(a[3])
-    moves = any(o and o[0] in (3, 4, 5, 11) for o in case.ops)
+    moves = any(o and o[0] in (3, 4, 5, 9, 11, 12, 16, 18) for o in case.ops)
     return allocs > 0 or moves
 
 
 def signature(case, impl_obs, model_obs):
-    # canonical: engine + first index where impl and model differ + kind of last impl line
+    # canonical: engine + kind of last impl line (+ the input class of the own-handle-last finding)
     last = impl_obs[-1] if impl_obs else ""
     kind = last.split()[1] if last.startswith("CRASH") and len(last.split()) > 1 else ("HANG" if last == "HANG" else "oracle")
-    return "%s:%s" % (case.engine, kind)
+    sim = Sim(case.engine == "sp1")
+    for o in case.ops:
+        sim.apply(o)
+    return "%s:%s%s" % (case.engine, kind, ":self-last" if sim.self_last else "")
 
 
 PARTS = [{"name": "seq_sp", "harness": "seq_sp.cpp", "gen": gen}]
